@@ -2,14 +2,14 @@
 import itertools
 import sys
 
-from mc import core, lib
+from mc import core, hist, lib
 
 ENGINE = "E1-sweep"
 RULE = ("all well-formed note sets (<=2 over the full lattice, <=3/<=4 over a reduced lattice, + 0-2 signature events) "
         "x 6 value lists x extension on/off, each compared with the independent fit model; distinct = distinct "
         "(values, extend, notes, events); non-trivial = some length changes or a note is removed")
 ASSUMPTIONS = ["inputs are well-formed; any minimiser of |d - length| over the fitting values is accepted"]
-REQUIRED_FLAGS = ["note_removed", "note_extended", "note_shortened", "tie_between_two_values", "back_to_back_repeat",
+REQUIRED_FLAGS = ["after_history", "note_removed", "note_extended", "note_shortened", "tie_between_two_values", "back_to_back_repeat",
                   "same_pitch_two_channels", "shorter_than_smallest_value", "non_note_event"]
 
 DEFAULT = [24, 12, 6, 16, 8, 4, 36, 18, 9]
@@ -44,6 +44,7 @@ def units(ctx):
             if ctx["tier"] != "quick":
                 for i in range(len(_reduced4(ctx))):
                     yield ("quads", vi, dne, i)
+    yield from hist.hist_units()
 
 
 def _classes(ctx):
@@ -70,6 +71,12 @@ def _mk(notes):
 
 
 def gen_cases(unit, ctx):
+    if unit[0] == "hist":
+        for h in hist.hist_of_unit(unit):
+            for vals in ([4, 8], [3, 6, 12], None):
+                for dne in (False, True):
+                    yield {"seed": unit[1], "build": unit[2], "hist": h, "values": vals, "dne": dne}
+        return
     kind, vi, dne = unit[:3]
     vals = VALUE_LISTS[vi]
     p, (c0, c1) = ctx["p"], ctx["ch"]
@@ -119,9 +126,16 @@ def gen_cases(unit, ctx):
 
 def check_case(case, ctx):
     R = core.Res()
-    vals, dne, notes, events = case["values"], case["dne"], case["notes"], case["events"]
+    vals, dne = case["values"], case["dne"]
     values = list(vals) if vals is not None else list(DEFAULT)
-    s = lib.seq_abs(notes, events)
+    if "hist" in case:
+        live = hist.live_case(case, R, ctx["p"], *ctx["ch"], hp=ctx["p"] - 20)
+        if live is None:
+            return R
+        s, notes, events, _ = live
+    else:
+        notes, events = case["notes"], case["events"]
+        s = lib.seq_abs(notes, events)
     in_ev, _, _ = lib.view_abs(s)
     try:
         if vals is None:
@@ -142,9 +156,9 @@ def check_case(case, ctx):
         R.bad("notes_not_paired_or_overlap", f"orphans={orphans} retriggers={retrig} unclosed={unclosed} out={out_ev}")
     if lib.non_note(in_ev) != lib.non_note(out_ev):
         R.bad("non_note_event_touched", f"in {lib.non_note(in_ev)} out {lib.non_note(out_ev)}")
-    by_vel = {}
+    by_vel = {}      # keyed by identity (channel, pitch, onset): onsets never move, velocity is compared separately
     for n in onotes:
-        by_vel.setdefault(n[4], []).append(n)
+        by_vel.setdefault((n[0], n[1], n[2]), []).append(n)
     changed = False
     expected_vels = set()
     for n in notes:
@@ -156,14 +170,14 @@ def check_case(case, ctx):
         fit = [d for d in values if (nxt is None or o + d <= nxt) and (not dne or d <= l)]
         if l < min(values):
             R.flags.append("shorter_than_smallest_value")
-        got = by_vel.get(v, [])
+        got = by_vel.get((cc, pp, o), [])
         if not fit:
             R.flags.append("note_removed")
             changed = True
             if got:
                 R.bad("note_kept_though_nothing_fits", f"note {n}, values {values}, dne={dne}: out {got}")
             continue
-        expected_vels.add(v)
+        expected_vels.add((cc, pp, o))
         best = min(abs(d - l) for d in fit)
         ok = {d for d in fit if abs(d - l) == best}
         if len(ok) > 1:
@@ -173,8 +187,8 @@ def check_case(case, ctx):
             continue
         g = got[0]
         d = g[3] - g[2]
-        if (g[0], g[1], g[2]) != (cc, pp, o):
-            R.bad("onset_or_identity_changed", f"note {n} became {g}")
+        if g[4] != v:
+            R.bad("velocity_changed", f"note {n} became {g}")
         elif d not in values:
             R.bad("duration_not_allowed", f"note {n} became {g}, length {d} not in {values}")
         elif d not in ok:
@@ -187,7 +201,7 @@ def check_case(case, ctx):
             R.flags.append("note_shortened")
         if d != l:
             changed = True
-    extra = [n for n in onotes if n[4] not in expected_vels]
+    extra = [n for n in onotes if (n[0], n[1], n[2]) not in expected_vels]
     if extra and not R.viols:
         R.bad("unexpected_output_note", f"{extra}")
     R.nontrivial = changed
